@@ -143,6 +143,9 @@ def run(ctx):
         else:
             cnt = rng.choice([0, 1, 2, 3, 0xFFFFFFFF, 0x7FFFFFFF, 70000])
             hostile.append(bytes([7, rng.choice([1, 5])]) + cnt.to_bytes(4, "little") + bytes(rng.choice([1, 4, 5, 0, 7]) for _ in range(rng.choice([0, 1, 9, 30]))))
+    # nesting around the decoder's limit (64) and far beyond it
+    for d in (1, 63, 64, 65, 66, 200) + (() if quick else (5000, 100000)):
+        hostile.append((bytes([7, 7]) + (1).to_bytes(4, "little")) * d + bytes([1]) + (7).to_bytes(8, "little"))
     lines = ["cop.de " + common.hexs(h) for h in hostile]
     mh = common.batch(driver, lines, timeout=3000)[0]
     ph = common.batch_robust(probe, lines, timeout=3000, env=env)
